@@ -327,9 +327,7 @@ class State(QOperation):
         vec_new = to_vec_from_density_matrix_with_sparsity(
             self.composite_system,
             new_density_matrix,
-            eps_truncate_imaginary_part=mutil.calc_eps_truncate_for_spectrum(
-                eigenvals, self.eps_truncate_imaginary_part
-            ),
+            eps_truncate_imaginary_part=self.eps_truncate_imaginary_part,
         )
 
         # create new State
@@ -385,9 +383,7 @@ class State(QOperation):
         new_vec = to_vec_from_density_matrix_with_sparsity(
             c_sys,
             new_density_matrix,
-            eps_truncate_imaginary_part=mutil.calc_eps_truncate_for_spectrum(
-                eigenvals, eps_truncate_imaginary_part
-            ),
+            eps_truncate_imaginary_part=eps_truncate_imaginary_part,
         )
 
         # vec to var
